@@ -677,6 +677,8 @@ pub fn eval(expr: Node) -> Result<Number, Box<dyn error::Error>> {
         }
         Avg(args) => {
             let mut result = 0.0;
+            let mut scaled = 0.0;
+            let len = args.len() as f64;
             for arg in <Vec<Node> as Clone>::clone(&args).into_iter() {
                 #[cfg(feature = "verif_hooks")]
                 crate::verif_hooks::tick(crate::verif_hooks::Point::EvalLoop);
@@ -686,8 +688,12 @@ pub fn eval(expr: Node) -> Result<Number, Box<dyn error::Error>> {
                     Number::Float(x) => x,
                 };
                 result += sub_expr;
+                scaled += sub_expr / len;
             }
-            let len = args.len() as f64;
+            if result.is_infinite() && scaled.is_finite() {
+                // the sum overflows although the mean does not (avg(1e308, 1e308))
+                return Ok(Number::from(scaled));
+            }
             Ok(Number::from(result / len))
         }
         Med(args) => {
@@ -710,6 +716,10 @@ pub fn eval(expr: Node) -> Result<Number, Box<dyn error::Error>> {
                     Number::Integer(x) => x as f64,
                     Number::Float(x) => x,
                 };
+                if (a + b).is_infinite() && a.is_finite() && b.is_finite() {
+                    // the sum overflows although the mean does not
+                    return Ok(Number::from(a / 2.0 + b / 2.0));
+                }
                 Ok(Number::from((a + b) / 2.0))
             } else {
                 Ok(results[len >> 1].clone())
